@@ -272,6 +272,8 @@ def _signature(t, free_ids):
 
 def _term_key(t, m):
     def tk(tok):
+        if tok_dim(tok) == 1:
+            return (0, -2)
         i = tok_idx(tok)
         i2 = m.get(i, i)
         return (i2.id, tok.k if isinstance(tok, Part) else -1)
@@ -572,6 +574,8 @@ def einsum_str(spec, *tens):
 
 def block_concat(tensors, axis):
     """np.concatenate along `axis`: that axis becomes a disjoint-union axis"""
+    if len(tensors) == 1:
+        return tensors[0]
     n = tensors[0].ndim
     axis = axis % n
     tens = [t.clone() for t in tensors]
